@@ -279,7 +279,7 @@ pub const REQUIRED: &[&str] = &["every_single_slot", "no_sets", "empty_set", "fu
 
 pub fn run(cx: &mut Ctx) {
     cx.require(REQUIRED);
-    cx.rule = "meta in {None, Some(\"\"), text}; 257 clip names with random presence; 0..=12 sets with optional label and slot patterns: empty, full, one slot at each of the 256 positions in turn (directed, exhaustive), only bit 31 of a group, only group 7, random density 1/10/50/90 %; names incl. the empty string and 2-byte characters. Each value is serialized, read by an independent reader on top of the strict reference archive reader, checked against the size formula 12+257*4+sum 4*(1+nonempty_groups+present_slots), re-read by the library and re-serialized. non-trivial = >=2 sets with different group masks; distinct by value hash".into();
+    cx.rule = "meta in {None, Some(\"\"), text}; 257 clip names with random presence; 0..=12 sets with optional label and slot patterns: empty, full, one slot at each of the 256 positions in turn (directed, exhaustive), only bit 31 of a group, only group 7, random density 1/10/50/90 %; names incl. the empty string and 2-byte characters. Each value is serialized, read by an independent reader on top of the strict reference archive reader, checked against the size formula 12+257*4+sum 4*(1+nonempty_groups+present_slots), re-read by the library and re-serialized. non-trivial = >=2 sets with different group masks; files with 255..4097 sets; one name the Shift-JIS encoder cannot express in 1 of 60 cases (must be refused or kept intact); distinct by value hash".into();
     let miri = cfg!(miri);
     let base = ASet { meta: Some("meta".into()), clips: vec![None; 257], sets: vec![] };
     cx.case("no_sets", |c| {
